@@ -41,6 +41,7 @@ var genFiles = []genFile{
 	{Name: "ChainProofs", Imports: []string{"ChainTypes", "Command"}},
 	{Name: "PolicyAcc"},
 	{Name: "PolicyMatch", Prelude: policyMatchPrelude},
+	{Name: "ChainEntry", Imports: []string{"ChainTypes"}, Prelude: chainEntryPrelude},
 	{Name: "ChainProofsShell", Imports: []string{"ChainTypes"}, Prelude: "variable (ext_Covers : Bytes → Bytes → GoM Bool)\n"},
 	{Name: "ChainShell", Imports: []string{"ChainTypes"}, Prelude: chainShellPrelude},
 	{Name: "ChainLoad", Imports: []string{"ChainTypes"}, Prelude: "variable {L : Type} (ext_GetDelegation : L → C → GoM (DlgTok D S))\n"},
@@ -73,6 +74,10 @@ var targets = []target{
 	{Dir: "token/invocation", Recv: "Token", Name: "verifyTimeBound", Lean: "Inv_verifyTimeBound", File: "ChainTime", Uses: []string{"now"}},
 	{Dir: "token/invocation", Recv: "Token", Name: "executionAllowed", Lean: "Inv_executionAllowed", File: "ChainAllowed",
 		Uses: []string{"now", "ext_GetDelegation", "ext_matchStatement", "ext_toIPLD"}},
+	{Dir: "token/invocation", Recv: "Token", Name: "ExecutionAllowed", Lean: "Inv_ExecutionAllowed", File: "ChainEntry", Shell: true,
+		Uses: []string{"ext_executionAllowed"}},
+	{Dir: "token/invocation", Recv: "Token", Name: "ExecutionAllowedWithArgsHook", Lean: "Inv_ExecutionAllowedWithArgsHook", File: "ChainEntry", Shell: true,
+		Uses: []string{"ext_executionAllowed", "ext_ReadOnly"}},
 	{Dir: "token/invocation", Recv: "Token", Name: "verifyProofs", Lean: "Inv_verifyProofs_shell", File: "ChainProofsShell", Shell: true,
 		Uses: []string{"ext_Covers"}},
 	{Dir: "token/invocation", Recv: "Token", Name: "executionAllowed", Lean: "Inv_executionAllowed_shell", File: "ChainShell", Shell: true,
@@ -122,6 +127,7 @@ var typeTable = map[string]string{
 	"policy.Statement":  "(Option S)", // an interface value; nil = "no statement to report"
 	"policy.Policy":     "(List (Option S))",
 	"*args.Args":        "A",
+	"args.ReadOnly":     "R", // the read-only view handed to an argument hook
 }
 
 // structDef is a Go struct whose listed fields are modelled; the Lean structure is generated from the
@@ -140,8 +146,8 @@ type structDef struct {
 var structTable = map[string]*structDef{
 	"delegation.Token": {dir: "token/delegation", name: "Token", lean: "DlgTok", leanType: "(DlgTok D S)", params: "(D S : Type)",
 		want: []string{"issuer", "audience", "subject", "command", "policy", "notBefore", "expiration"}},
-	"invocation.Token": {dir: "token/invocation", name: "Token", lean: "InvTok", leanType: "(InvTok D C)", params: "(D C : Type)",
-		want: []string{"issuer", "subject", "audience", "command", "proof", "expiration"}},
+	"invocation.Token": {dir: "token/invocation", name: "Token", lean: "InvTok", leanType: "(InvTok D C A)", params: "(D C A : Type)",
+		want: []string{"issuer", "subject", "audience", "command", "arguments", "proof", "expiration"}},
 }
 
 var structOrder = []string{"delegation.Token", "invocation.Token"}
@@ -216,16 +222,18 @@ var methodCalls = map[string]libCall{
 var externMethods = map[string]libCall{
 	"invocation.Token.loadProofs":     {"(ext_loadProofs $r $1)", ty{"(List (DlgTok D S))", "[]delegation.Token"}, []string{"ext_loadProofs"}},
 	"delegation.Loader.GetDelegation": {"(ext_GetDelegation $r $1)", ty{"(DlgTok D S)", "*delegation.Token"}, []string{"ext_GetDelegation"}},
+	"*args.Args.ReadOnly":             {"(ext_ReadOnly $r)", ty{"R", "args.ReadOnly"}, []string{"ext_ReadOnly"}},
 	"*args.Args.ToIPLD":               {"(ext_toIPLD $r)", ty{"N", "datamodel.Node"}, []string{"ext_toIPLD"}},
 }
 
 // shellMethods: the parameters a shell target takes for the methods it calls.
 var shellMethods = map[string]libCall{
-	"command.Command.Covers":           {"(ext_Covers $r $1)", boolTy, []string{"ext_Covers"}},
-	"invocation.Token.loadProofs":      {"(ext_loadProofs $r $1)", ty{"(List (DlgTok D S))", "[]delegation.Token"}, []string{"ext_loadProofs"}},
-	"invocation.Token.verifyProofs":    {"(ext_verifyProofs $r $1)", ty{"Unit", "unit"}, []string{"ext_verifyProofs"}},
-	"invocation.Token.verifyTimeBound": {"(ext_verifyTimeBound $r $1)", ty{"Unit", "unit"}, []string{"ext_verifyTimeBound"}},
-	"invocation.Token.verifyArgs":      {"(ext_verifyArgs $r $1 $2)", ty{"Unit", "unit"}, []string{"ext_verifyArgs"}},
+	"invocation.Token.executionAllowed": {"(ext_executionAllowed $r $1 $2)", ty{"Unit", "unit"}, []string{"ext_executionAllowed"}},
+	"command.Command.Covers":            {"(ext_Covers $r $1)", boolTy, []string{"ext_Covers"}},
+	"invocation.Token.loadProofs":       {"(ext_loadProofs $r $1)", ty{"(List (DlgTok D S))", "[]delegation.Token"}, []string{"ext_loadProofs"}},
+	"invocation.Token.verifyProofs":     {"(ext_verifyProofs $r $1)", ty{"Unit", "unit"}, []string{"ext_verifyProofs"}},
+	"invocation.Token.verifyTimeBound":  {"(ext_verifyTimeBound $r $1)", ty{"Unit", "unit"}, []string{"ext_verifyTimeBound"}},
+	"invocation.Token.verifyArgs":       {"(ext_verifyArgs $r $1 $2)", ty{"Unit", "unit"}, []string{"ext_verifyArgs"}},
 }
 
 // externFuncs: functions (not methods) of the library that are parameters of the generated code, keyed by "<dir>.<name>".
@@ -236,16 +244,18 @@ var externFuncs = map[string]libCall{
 
 // useTypes: Lean types of the parameters (section variables) that targets may mention
 var useTypes = map[string]string{
-	"lower":               "Bytes → Bytes",
-	"now":                 "Int",
-	"ext_loadProofs":      "InvTok D C → L → GoM (List (DlgTok D S))",
-	"ext_toIPLD":          "A → GoM N",
-	"ext_GetDelegation":   "L → C → GoM (DlgTok D S)",
-	"ext_Covers":          "Bytes → Bytes → GoM Bool",
-	"ext_verifyProofs":    "InvTok D C → List (DlgTok D S) → GoM Unit",
-	"ext_verifyTimeBound": "InvTok D C → List (DlgTok D S) → GoM Unit",
-	"ext_verifyArgs":      "InvTok D C → List (DlgTok D S) → A → GoM Unit",
-	"ext_matchStatement":  "Option S → N → (Int × (Option S))",
+	"lower":                "Bytes → Bytes",
+	"now":                  "Int",
+	"ext_loadProofs":       "InvTok D C A → L → GoM (List (DlgTok D S))",
+	"ext_toIPLD":           "A → GoM N",
+	"ext_executionAllowed": "InvTok D C A → L → A → GoM Unit",
+	"ext_ReadOnly":         "A → GoM R",
+	"ext_GetDelegation":    "L → C → GoM (DlgTok D S)",
+	"ext_Covers":           "Bytes → Bytes → GoM Bool",
+	"ext_verifyProofs":     "InvTok D C A → List (DlgTok D S) → GoM Unit",
+	"ext_verifyTimeBound":  "InvTok D C A → List (DlgTok D S) → GoM Unit",
+	"ext_verifyArgs":       "InvTok D C A → List (DlgTok D S) → A → GoM Unit",
+	"ext_matchStatement":   "Option S → N → (Int × (Option S))",
 }
 
 // pairTypes: component types of the pair types externs return
@@ -257,15 +267,18 @@ var pairTypes = map[string][2]ty{
 const policyMatchPrelude = `variable {N : Type} (ext_matchStatement : Option S → N → (Int × (Option S)))
 `
 
-const chainArgsPrelude = `variable {N A : Type} (ext_matchStatement : Option S → N → (Int × (Option S))) (ext_toIPLD : A → GoM N)
+const chainArgsPrelude = `variable {N : Type} (ext_matchStatement : Option S → N → (Int × (Option S))) (ext_toIPLD : A → GoM N)
 `
 
-const chainShellPrelude = `variable {L A : Type} (ext_loadProofs : InvTok D C → L → GoM (List (DlgTok D S)))
-  (ext_verifyProofs : InvTok D C → List (DlgTok D S) → GoM Unit) (ext_verifyTimeBound : InvTok D C → List (DlgTok D S) → GoM Unit)
-  (ext_verifyArgs : InvTok D C → List (DlgTok D S) → A → GoM Unit)
+const chainShellPrelude = `variable {L : Type} (ext_loadProofs : InvTok D C A → L → GoM (List (DlgTok D S)))
+  (ext_verifyProofs : InvTok D C A → List (DlgTok D S) → GoM Unit) (ext_verifyTimeBound : InvTok D C A → List (DlgTok D S) → GoM Unit)
+  (ext_verifyArgs : InvTok D C A → List (DlgTok D S) → A → GoM Unit)
 `
 
-const chainAllowedPrelude = `variable {L N A : Type} (now : Int) (ext_GetDelegation : L → C → GoM (DlgTok D S))
+const chainEntryPrelude = `variable {L R : Type} (ext_executionAllowed : InvTok D C A → L → A → GoM Unit) (ext_ReadOnly : A → GoM R)
+`
+
+const chainAllowedPrelude = `variable {L N : Type} (now : Int) (ext_GetDelegation : L → C → GoM (DlgTok D S))
   (ext_matchStatement : Option S → N → (Int × (Option S))) (ext_toIPLD : A → GoM N)
 `
 
@@ -283,5 +296,5 @@ var constTable = map[string]constDef{
 	"math.MaxInt":     {"(9223372036854775807 : Int)", intTy},
 }
 
-const prelude = `variable (lower : Bytes → Bytes) {D C S : Type} [DecidableEq D]
+const prelude = `variable (lower : Bytes → Bytes) {D C S A : Type} [DecidableEq D]
 `
